@@ -295,6 +295,7 @@ func gRunSeq(res *engine.Result, c gCase, ops []int, ci int, flt *gFault) (inter
 	}
 	w := engine.NewWorld()
 	defer w.Close()
+	w.FrozenClock = true // one time per event: version creation times are whole seconds, like the cutoffs
 	lay := engine.TableLayout("p")
 	opts := engine.TableOpts{EPN: c.EPN, Cache: c.Cache}
 	tick := 0
@@ -594,6 +595,11 @@ func gRunSeq(res *engine.Result, c gCase, ops []int, ci int, flt *gFault) (inter
 	for k := range reclaimed {
 		reclaimedBefore[k] = true
 	}
+	// what EARLIER vacuums removed; the final vacuum's own removals are exactly what the oracles below judge
+	removedBefore := map[string]bool{}
+	for n := range vacuumedEarlier {
+		removedBefore[n] = true
+	}
 	mark := w.B.LogLen()
 	if flt != nil {
 		// ---- the vacuum meets one failing request; the connection lives on ----
@@ -799,7 +805,7 @@ func gRunSeq(res *engine.Result, c gCase, ops []int, ci int, flt *gFault) (inter
 		if !(inCur[n] || !g.created.Before(cut)) {
 			continue
 		}
-		if vacuumedEarlier[n] && !inCur[n] {
+		if removedBefore[n] && !inCur[n] {
 			continue // removed by an earlier vacuum; what is there now is a stale writer's retire copy
 		}
 		rows, err := openOnly(w, c.EPN, []string{n})
@@ -821,7 +827,7 @@ func gRunSeq(res *engine.Result, c gCase, ops []int, ci int, flt *gFault) (inter
 			viol("c09", "version-undecodable", "%v", err)
 			continue
 		}
-		if len(vd.Missing) > 0 && vacuumedEarlier[n] && !inCur[n] {
+		if len(vd.Missing) > 0 && removedBefore[n] && !inCur[n] {
 			continue
 		}
 		if len(vd.Missing) > 0 {
